@@ -100,9 +100,13 @@ def run(ctx):
                 spelling[lab] = fake
                 hosts.append((lab,) + tuple(armour(l) for l in rest_.split(".")))
                 hosts.append((armour("www"), lab) + tuple(armour(l) for l in rest_.split(".")))
+    # the kelvin sign lower-cases to 'k' (str.lower(), urlsplit().hostname, IDNA): 'facebooK.com' IS facebook.com, in every form
+    respelled = {len(hosts): "faceboo\u212a.com", len(hosts) + 1: "www.faceboo\u212a.com"}
+    hosts.append(("facebook", "com"))
+    hosts.append(("www", "facebook", "com"))
     for hi, h in enumerate(hosts):
-        text = ".".join(spelling.get(l, l) for l in h)
-        if hi % 5 == 1:
+        text = respelled.get(hi) or ".".join(spelling.get(l, l) for l in h)
+        if hi % 5 == 1 and hi not in respelled:
             text = "".join(c.upper() if "a" <= c <= "z" else c for c in text)
         # every host with 3 paths (rotating) x 3 decoy settings (rotating), the decoy-free one first
         for pi in range(3):
